@@ -36,7 +36,7 @@ import traceback
 
 from mc import env
 from mc import c14_mut as M
-from mc import wfgen, wfscn
+from mc import wfscn
 from checks import common
 
 import jsonschema
